@@ -74,6 +74,11 @@ CHECKS = {
    text="Generated projects with 1-3 `.test` blocks (loops, nested loops, forward branches, subroutines, scopes, stack use, indexed/indirect memory, optionally two banks) get assertions chosen from a reference execution trace to be true, false, unevaluable or dependent on a later visit; the reference interpreter runs the model-derived image of the test's bank, evaluates every assertion at every visit and predicts verdict, failing assertion location and message for each test; `mos test` must print the matching verdict line per test, exit non-zero iff a test fails and report each failure at the assertion's file:line:column with the expected message.",
    note="The modelled instruction subset excludes decimal mode, jmp (ind), brk/rti as instructions and txs; programs are constructed to terminate. Flag symbols are only used for their truth value. The reference interpreter's self test (300 random programs against emulator_6502) runs before every campaign; its failure is exit 2, not a violation.",
    ref="§5 C18"),
+ "C17": dict(
+   technique="proptest over buffers sent to a live `mos lsp` process; differential oracle: LSP text edits applied per the LSP specification vs the file `mos format` writes",
+   text="Generated error-free buffers (arbitrary spacing, comments, case; CRLF and non-ASCII in feature campaigns; 1 in 8 already formatted) are sent to a long-lived language server (didOpen/didChange) followed by textDocument/formatting or onTypeFormatting; the returned edits must be ordered, non-overlapping and in range, and applied in the standard manner (UTF-16 columns, ranges relative to the original text, positions beyond a line clamped) must give exactly the text the `mos format` executable writes for the same file with default options.",
+   note="A server that dies or declines (null) is not judged here (C14). Default formatter options only, as the property states.",
+   ref="§5 C17"),
 }
 
 NOT_YET = {
